@@ -811,4 +811,200 @@ Proof.
   - split; [now apply closel_step'|]. split; [exact G1|now apply gclose_from'].
 Qed.
 
+(* ---------- frames that ignore the tyme ---------- *)
+
+Definition gframe (Xg Xs : list id) s s' : Prop :=
+  defs s' = defs s /\
+  (forall j, ~ In j Xg -> get_gen s' j = get_gen s j) /\
+  (forall j, ~ In j Xs -> get_sched s' j = get_sched s j).
+
+Lemma frame_gframe Xg Xs s s' : frame Xg Xs s s' -> gframe Xg Xs s s'.
+Proof. intros (_ & D & G & S). repeat split; assumption. Qed.
+Lemma gframe_refl Xg Xs s : gframe Xg Xs s s.
+Proof. repeat split; reflexivity. Qed.
+Lemma gframe_trans Xg Xs a s (c : st T) : gframe Xg Xs a s -> gframe Xg Xs s c -> gframe Xg Xs a c.
+Proof.
+  intros (D1 & G1 & S1) (D2 & G2 & S2). repeat split; try congruence.
+  - intros j Hj. now rewrite G2, G1.
+  - intros j Hj. now rewrite S2, S1.
+Qed.
+Lemma gframe_weaken Xg Xs Yg Ys a s : incl Xg Yg -> incl Xs Ys -> gframe Xg Xs a s -> gframe Yg Ys a s.
+Proof.
+  intros Ig Is (D1 & G1 & S1). repeat split; try assumption.
+  - intros j Hj. apply G1. intro. apply Hj. now apply Ig.
+  - intros j Hj. apply S1. intro. apply Hj. now apply Is.
+Qed.
+Lemma gf_tyme Xg Xs a s t : gframe Xg Xs a s -> gframe Xg Xs a (set_tyme s t).
+Proof. intros (D1 & G1 & S1). repeat split; assumption. Qed.
+Lemma gf_rlive Xg Xs a s (v : bool) : gframe Xg Xs a s -> gframe Xg Xs a (set_rlive s v).
+Proof. intros (D1 & G1 & S1). repeat split; assumption. Qed.
+Lemma gf_done Xg Xs a s i d : gframe Xg Xs a s -> gframe Xg Xs a (set_done s i d).
+Proof. intros (D1 & G1 & S1). repeat split; assumption. Qed.
+Lemma gf_emit Xg Xs a s k i : gframe Xg Xs a s -> gframe Xg Xs a (emit s k i).
+Proof. intros (D1 & G1 & S1). repeat split; assumption. Qed.
+Lemma gf_deeds Xg Xs a s i d : In i Xs -> gframe Xg Xs a s -> gframe Xg Xs a (set_deeds s i d).
+Proof.
+  intros Hi (D1 & G1 & S1). repeat split; try assumption.
+  intros j Hj. rewrite sched_set_deeds_other; [now apply S1|]. intro; subst; contradiction.
+Qed.
+Lemma gf_sched Xg Xs a s i c : In i Xs -> gframe Xg Xs a s -> gframe Xg Xs a (set_sched s i c).
+Proof.
+  intros Hi (D1 & G1 & S1). repeat split; try assumption.
+  intros j Hj. unfold get_sched, set_sched; cbn [scheds]. rewrite get_set_other; [now apply S1|].
+  intro; subst; contradiction.
+Qed.
+
+Lemma endedid_gframe Xg Xs s s' x :
+  gframe Xg Xs s s' -> ~ In x Xg -> ~ In x Xs -> endedid s x -> endedid s' x.
+Proof.
+  intros (D & FG & FS) Ng Ns [G E]. split; [now rewrite FG|]. rewrite D, FS by exact Ns. exact E.
+Qed.
+
+(* ---------- the cycle loop, with the state it leaves behind ---------- *)
+
+Lemma root_pass_t' (U : list (titem T)) f s o s' r :
+  recur_pass tk f s 0%N = (s', r) -> oof s' = false -> Rept vis z0 s U o ->
+  exists U' o', tpass (tabs z0) tk (tyme s) U o = (U', o') /\
+    r = GReturn /\ deeds (get_sched s' 0%N) = map t_deed U' /\
+    ts_ok s' U' /\ out_ok vis s' o' /\ frame (ts_ids U) (0%N :: ts_ids U) s s' /\
+    same_doers s s' /\ (forall x, In x (ts_ids U) -> ~ In x (ts_ids U') -> endedid s' x).
+Proof.
+  intros E O (Dq & G & W & ND & OK).
+  destruct f as [|f]; [rewrite recur_pass_O in E; inversion E; subst; discriminate|].
+  rewrite recur_pass_S in E. cbv zeta in E.
+  set (s1 := set_deeds s 0%N (deeds (get_sched s 0%N) ++ [DMark])) in *.
+  assert (F1 : frame [] [0%N] s s1) by (apply frame_deeds; [now left|apply frame_refl]).
+  assert (Dq1 : deeds (get_sched s1 0%N) = map t_deed U ++ DMark :: []).
+  { unfold s1. rewrite deeds_set_deeds_same. now rewrite Dq. }
+  assert (G1 : ts_ok s1 U).
+  { eapply ts_ok_frame; [exact F1| |exact G]. intros x Hx. split; [intros []|].
+    intros [Heq|[]]. subst x. apply NoDup_cons_iff in ND as [N0 _]. contradiction. }
+  destruct (pass_all' f) as (L & _).
+  destruct (L 0%N tk U [] s1 o s' r E O Dq1 G1 W ND (ok_deeds _ _ _ _ _ OK) eq_refl)
+    as (U' & o' & Hp & -> & Dq' & G' & OK' & F' & SD' & En').
+  exists U', o'. split; [exact Hp|]. split; [reflexivity|]. split; [exact Dq'|].
+  split; [exact G'|]. split; [exact OK'|]. split; [|split; [|exact En']].
+  - eapply frame_trans; [eapply frame_weaken; [| |exact F1]|exact F']; intros x Hx; cbn [In] in *; tauto.
+  - eapply sd_trans; [|exact SD']. unfold s1. apply sd_deeds, sd_refl.
+Qed.
+
+Lemma root_close_t' f s (its : list (titem T)) o :
+  oof (close_own tk f s 0%N) = false ->
+  deeds (get_sched s 0%N) = map t_deed its ->
+  ts_ok s its -> ts_wf (defs s) its -> NoDup (0%N :: ts_ids its) -> out_ok vis s o ->
+  out_ok vis (close_own tk f s 0%N) (tclose (tyme s) its o) /\
+  tyme (close_own tk f s 0%N) = tyme s /\
+  frame (ts_ids its) (0%N :: ts_ids its) s (close_own tk f s 0%N) /\
+  same_doers s (close_own tk f s 0%N) /\
+  (forall x, In x (ts_ids its) -> endedid (close_own tk f s 0%N) x) /\
+  deeds (get_sched (close_own tk f s 0%N) 0%N) = [].
+Proof.
+  intros O Dq G W ND OK.
+  destruct f as [|f]; [rewrite close_own_O in O; discriminate|].
+  rewrite close_own_S in *. cbv zeta in *. rewrite Dq in *.
+  unfold unrotate in *. rewrite split_mark_ts in *. rewrite <- map_rev in *.
+  apply NoDup_cons_iff in ND as [N0 ND].
+  set (s1 := set_deeds s 0%N []) in *.
+  assert (F1 : frame [] [0%N] s s1) by (apply frame_deeds; [now left|apply frame_refl]).
+  assert (G1 : ts_ok s1 (rev its)).
+  { apply ts_ok_rev. eapply ts_ok_frame; [exact F1| |exact G]. intros x Hx. split; [intros []|].
+    intros [Heq|[]]. subst x. contradiction. }
+  assert (ND1 : NoDup (ts_ids (rev its))) by (eapply Permutation_NoDup; [apply ts_ids_rev|exact ND]).
+  assert (Hrev : forall x, In x (ts_ids (rev its)) <-> In x (ts_ids its)).
+  { intro x. split; apply Permutation_in; [symmetry|]; apply ts_ids_rev. }
+  destruct (close_all' f) as (CL & _).
+  destruct (CL (rev its) s1 o O G1 (ts_wf_rev vis z0 _ _ W) ND1 (ok_deeds _ _ _ _ _ OK)) as (OK' & F' & SD' & En').
+  rewrite rev_involutive in OK'.
+  split; [exact OK'|]. split; [destruct F' as (-> & _); reflexivity|].
+  split; [|split; [|split]].
+  - eapply frame_trans; [eapply frame_weaken; [| |exact F1]|eapply frame_weaken; [| |exact F']].
+    + intros x [].
+    + intros x Hx; cbn [In] in *; tauto.
+    + intros x Hx. now apply Hrev.
+    + intros x Hx. right. now apply Hrev.
+  - eapply sd_trans; [|exact SD']. unfold s1. apply sd_deeds, sd_refl.
+  - intros x Hx. apply En'. now apply Hrev.
+  - destruct F' as (_ & _ & _ & FS). rewrite FS; [unfold s1; apply deeds_set_deeds_same|].
+    intro Hx. apply N0. now apply Hrev.
+Qed.
+
+Lemma cycle_spec_t' (X : list id) : forall c f s its o limit stop,
+  oof (cycle_loop tk c f s limit stop) = false -> Rept vis z0 s its o ->
+  ~ In 0%N X -> incl (ts_ids its) X -> (forall x, In x X -> ~ In x (ts_ids its) -> endedid s x) ->
+  exists t' o', tspec_cycles tk (tabs z0) c (tyme s) its o limit stop = Some (t', o') /\
+    tyme (cycle_loop tk c f s limit stop) = t' /\ out_ok vis (cycle_loop tk c f s limit stop) o' /\
+    gframe X (0%N :: X) s (cycle_loop tk c f s limit stop) /\
+    same_doers s (cycle_loop tk c f s limit stop) /\
+    (forall x, In x X -> endedid (cycle_loop tk c f s limit stop) x) /\
+    deeds (get_sched (cycle_loop tk c f s limit stop) 0%N) = [].
+Proof.
+  induction c as [|c IH]; intros f s its o limit stop O R N0 Inc Dead; [discriminate|].
+  pose proof R as (Dq & G & W & ND & OK).
+  rewrite cycle_loop_S in *. destruct (recur_pass tk f s 0%N) as [s1 r] eqn:E. cbn [fst snd] in *.
+  pose proof (after_pass_oof _ _ _ _ _ _ _ O) as O1.
+  destruct (root_pass_t' its f s o s1 r E O1 R) as (its' & o1 & Hp & -> & Dq1 & G1 & OK1 & F1 & SD1 & En1).
+  assert (T1 : tyme s1 = tyme s) by (destruct F1 as (-> & _); reflexivity).
+  destruct (tpass_wf vis z0 (tabs z0) (tyme s) (defs s) its tk o its' o1 Hp) as [Sub Wf].
+  assert (W1 : ts_wf (defs s1) its') by (destruct F1 as (_ & -> & _); auto).
+  assert (ND1 : NoDup (0%N :: ts_ids its')) by (eapply subl_NoDup; [apply subl_keep; exact Sub|exact ND]).
+  assert (Inc1 : incl (ts_ids its') X) by (intros x Hx; apply Inc; eapply subl_In; eassumption).
+  assert (GF1 : gframe X (0%N :: X) s s1).
+  { eapply gframe_weaken; [| |apply frame_gframe; exact F1]; intros x Hx; cbn [In] in *; auto.
+    destruct Hx as [Hx|Hx]; auto. }
+  assert (Dead1 : forall x, In x X -> ~ In x (ts_ids its') -> endedid s1 x).
+  { intros x Hx Hn. destruct (in_dec N.eq_dec x (ts_ids its)) as [Hi|Hi]; [now apply En1|].
+    eapply endedid_frame; [exact F1|exact Hi| |now apply Dead].
+    intros [Heq|Hx2]; [subst x; contradiction|contradiction]. }
+  cbn [tspec_cycles]. rewrite Hp.
+  unfold after_pass in *. cbv zeta in *. rewrite T1 in *.
+  set (s2 := set_tyme s1 (tadd (tyme s) tk)) in *.
+  change (deeds (get_sched s2 0%N)) with (deeds (get_sched s1 0%N)) in *. rewrite Dq1 in *.
+  change (tyme s2) with (tadd (tyme s) tk) in *.
+  assert (GF2 : gframe X (0%N :: X) s s2) by (apply gf_tyme; exact GF1).
+  assert (SD2 : same_doers s s2) by exact SD1.
+  assert (Dead2 : forall x, In x X -> ~ In x (ts_ids its') -> endedid s2 x) by exact Dead1.
+  destruct its' as [|it its''].
+  - cbn [map] in *. rewrite oof_emit in O.
+    rewrite close_own_empty in * by (try exact O; rewrite sched_set_done; exact Dq1).
+    set (sf := emit (set_deeds (set_done s2 0%N (Some true)) 0%N []) DoReturn 0%N).
+    assert (Ff : gframe [] [0%N] s2 sf).
+    { unfold sf. apply gf_emit. apply gf_deeds; [now left|]. apply gf_done. apply gframe_refl. }
+    eexists _, _. split; [reflexivity|]. split; [reflexivity|].
+    split; [|split; [|split; [|split]]].
+    + apply (ok_emit_vis vis (set_deeds (set_done s2 0%N (Some true)) 0%N []) _ DoReturn 0%N vis0).
+      apply ok_deeds. apply ok_done_vis. apply ok_tyme. exact OK1.
+    + eapply gframe_trans; [exact GF2|]. eapply gframe_weaken; [| |exact Ff]; intros x Hx; cbn [In] in *; tauto.
+    + eapply sd_trans; [exact SD2|]. unfold sf. apply sd_emit, sd_deeds, sd_done, sd_refl.
+    + intros x Hx. eapply endedid_gframe; [exact Ff|intros []| |apply Dead2; [exact Hx|intros []]].
+      intros [Heq|[]]. subst x. contradiction.
+    + unfold sf. rewrite sched_emit. apply deeds_set_deeds_same.
+  - cbn [map] in O |- *.
+    destruct (limited limit && tleb stop (tadd (tyme s) tk)).
+    + rewrite oof_emit in O.
+      destruct (root_close_t' f s2 (it :: its'') o1 O Dq1 (ts_ok_tyme _ _ _ G1) W1 ND1 (ok_tyme _ _ _ _ OK1))
+        as (OK' & T' & F' & SD' & En' & Dq').
+      set (sc := close_own tk f s2 0%N) in *.
+      eexists _, _. split; [reflexivity|]. split; [exact T'|].
+      split; [|split; [|split; [|split]]].
+      * pose proof (ok_emit_vis vis sc _ DoReturn 0%N vis0 OK') as Xo.
+        rewrite T' in Xo. exact Xo.
+      * apply gf_emit. eapply gframe_trans; [exact GF2|].
+        eapply gframe_weaken; [| |apply frame_gframe; exact F']; intros x Hx; cbn [In] in *; auto.
+        destruct Hx as [Hx|Hx]; auto.
+      * apply sd_emit. eapply sd_trans; eassumption.
+      * intros x Hx. change (endedid sc x).
+        destruct (in_dec N.eq_dec x (ts_ids (it :: its''))) as [Hi|Hi]; [now apply En'|].
+        eapply endedid_frame; [exact F'|exact Hi| |now apply Dead2].
+        intros [Heq|Hx2]; [subst x; contradiction|contradiction].
+      * rewrite sched_emit. exact Dq'.
+    + destruct (IH f s2 (it :: its'') o1 limit stop O) as (t' & o' & Hs & Ht & OKf & GFf & SDf & Enf & Dqf);
+        [|exact N0|exact Inc1|exact Dead2|].
+      * split; [exact Dq1|]. split; [apply ts_ok_tyme; exact G1|].
+        split; [exact W1|split; [exact ND1|apply ok_tyme; exact OK1]].
+      * change (tyme s2) with (tadd (tyme s) tk) in Hs.
+        exists t', o'. split; [exact Hs|]. split; [exact Ht|]. split; [exact OKf|].
+        split; [eapply gframe_trans; eassumption|]. split; [eapply sd_trans; eassumption|].
+        split; [exact Enf|exact Dqf].
+Qed.
+
 End HRun.
